@@ -6,6 +6,10 @@ Open Scope Z_scope.
 
 Inductive case :=
 | CPoint (t : Z) (iv : interval) (ctfe_ok : bool) (client_ok : option bool)
+(* the server window taken through the configuration (LogConfig -> ValidateLogConfig -> SetUpInstance ->
+   add-chain): None = the configuration was refused (limit before start), Some a = the log answered
+   200 (a = true) or 400 (a = false) to a certificate expiring at t *)
+| CConfigPoint (t : Z) (iv : interval) (admitted : option bool)
 | CLogList (t s e : Z) (kept : bool)
 | CShards (shards : list interval) (ts : list Z) (obs : option (list (option nat))).
 
@@ -15,8 +19,18 @@ Definition model_client_point (t : Z) (iv : interval) : option bool :=
   | Some ivs => Some (match index_by_date t ivs with Some _ => true | None => false end)
   end.
 
+(* config.go: a window whose limit lies before its start is refused; every other window reaches
+   ValidateChain unchanged *)
+Definition config_window (iv : interval) : option interval :=
+  match iv with
+  | (Some lo, Some hi) => if hi <? lo then None else Some iv
+  | _ => Some iv
+  end.
+
 Definition check (c : case) : bool :=
   match c with
+  | CConfigPoint t iv a =>
+      opt_eqb Bool.eqb (match config_window iv with Some w => Some (ctfe_admits t w) | None => None end) a
   | CPoint t iv a b => Bool.eqb (ctfe_admits t iv) a && opt_eqb Bool.eqb (model_client_point t iv) b
   | CLogList t s e k => Bool.eqb (loglist_keep t s e) k
   | CShards sh ts obs => opt_eqb (list_eqb (opt_eqb Nat.eqb)) (run_shards sh ts) obs
@@ -24,6 +38,7 @@ Definition check (c : case) : bool :=
 
 Definition explain (c : case) :=
   match c with
+  | CConfigPoint t iv _ => (Some (ctfe_admits t iv, match config_window iv with Some _ => Some true | None => None end), None, None)
   | CPoint t iv _ _ => (Some (ctfe_admits t iv, model_client_point t iv), None, None)
   | CLogList t s e _ => (None, Some (loglist_keep t s e), None)
   | CShards sh ts _ => (None, None, Some (run_shards sh ts))
